@@ -228,8 +228,8 @@ class AttributesConverter(object):
     def proto_to_audio(self, proto):
         return AudioAttributes(
             self.proto_to_downloadablemedia(proto),
-            proto.seconds,
-            proto.ptt
+            proto.seconds if proto.HasField("seconds") else None,
+            proto.ptt if proto.HasField("ptt") else None
         )
 
     def video_to_proto(self, video_attributes):
@@ -257,8 +257,14 @@ class AttributesConverter(object):
     def proto_to_video(self, proto):
         return VideoAttributes(
             self.proto_to_downloadablemedia(proto),
-            proto.width, proto.height, proto.seconds, proto.gif_playback,
-            proto.jpeg_thumbnail, proto.gif_attribution, proto.caption, proto.streaming_sidecar
+            proto.width if proto.HasField("width") else None,
+            proto.height if proto.HasField("height") else None,
+            proto.seconds if proto.HasField("seconds") else None,
+            proto.gif_playback if proto.HasField("gif_playback") else None,
+            proto.jpeg_thumbnail if proto.HasField("jpeg_thumbnail") else None,
+            proto.gif_attribution if proto.HasField("gif_attribution") else None,
+            proto.caption if proto.HasField("caption") else None,
+            proto.streaming_sidecar if proto.HasField("streaming_sidecar") else None
         )
 
     def sticker_to_proto(self, sticker_attributes):
@@ -276,7 +282,9 @@ class AttributesConverter(object):
     def proto_to_sticker(self, proto):
         return StickerAttributes(
             self.proto_to_downloadablemedia(proto),
-            proto.width, proto.height, proto.png_thumbnail
+            proto.width if proto.HasField("width") else None,
+            proto.height if proto.HasField("height") else None,
+            proto.png_thumbnail if proto.HasField("png_thumbnail") else None
         )
 
     def downloadablemedia_to_proto(self, downloadablemedia_attributes, proto):
@@ -296,8 +304,8 @@ class AttributesConverter(object):
             mimetype=proto.mimetype,
             file_length=proto.file_length,
             file_sha256=proto.file_sha256,
-            url=proto.url,
-            media_key=proto.media_key,
+            url=proto.url if proto.HasField("url") else None,
+            media_key=proto.media_key if proto.HasField("media_key") else None,
             context_info=self.proto_to_contextinfo(proto.context_info)
             if proto.HasField("context_info") else None
         )
